@@ -156,6 +156,13 @@ LawWrongMsgOnlyFills(alts, w) == GradedOut(alts, w) = {Res(Shown([grade |-> o.gr
 LawMonotone(alts, w) == Raising(alts) = {} /\ Len(alts) > 1 =>
                           \A i \in 1..Len(alts) : Leq(BestGrade(Without(alts, i)), BestGrade(alts))
 LawDuplicate(alts, w) == \A i \in 1..Len(alts) : AllowedOut(Append(alts, alts[i]), w) = AllowedOut(alts, w)
+\* grades stay inside [0, 1]; a matched full-credit alternative always yields full credit
+LawBounded(alts, w) == \A o \in GradedOut(alts, w) : Leq(Zero, o.grade) /\ Leq(o.grade, One)
+LawFullCreditHit(alts, w) == (\E p \in Graded(alts) : ValAt(alts, p).k = "hit" /\ alts[p[1]].credit = One)
+                             => \A o \in GradedOut(alts, w) : o.grade = One
+\* raising one alternative's credit never lowers the grade
+LawCreditMonotone(alts, w) == Raising(alts) = {} =>
+                                \A i \in 1..Len(alts) : Leq(BestGrade(alts), BestGrade([alts EXCEPT ![i].credit = One]))
 \* a single alternative with a single value returns its own response
 LawSingle(alts, w) == Len(alts) = 1 /\ Len(alts[1].vals) = 1 /\ Raising(alts) = {} =>
                         AllowedOut(alts, w) = {Res(Shown(Response(alts[1], alts[1].vals[1]), w))}
